@@ -18,6 +18,7 @@ on pooled connections is transport, see C18/C20) and the overlap of quorums acro
 real nodes' states after every event), which is exploration, not proof.
 -/
 import RaftVerif.Props.C05
+import RaftVerif.Lemmas.ReplSteps
 
 namespace Raft
 namespace C01
@@ -210,3 +211,4 @@ end Raft
 #print axioms Raft.C01.election_safety_partial
 #print axioms Raft.C01.candidate_counts_down
 #print axioms Raft.C01.election_starts_with_quorum
+#print axioms Raft.Repl.stale_term_stops
